@@ -362,7 +362,14 @@ func (w *Workspace) removeUnreachableLocked(reachable map[string]bool) {
 
 func (w *Workspace) addMissingReachableLocked(reachable map[string]bool) bool {
 	added := false
+	// files are appended to the resolved order as they are added: a fixed
+	// order here keeps responses independent of map iteration order
+	paths := make([]string, 0, len(reachable))
 	for path := range reachable {
+		paths = append(paths, path)
+	}
+	sort.Strings(paths)
+	for _, path := range paths {
 		if w.index.FileIndex(path) != nil {
 			continue
 		}
